@@ -158,6 +158,20 @@ impl<'g> SentenceGen<'g> {
                 }
             }
         }
+        // an opener inside a comment (skippable as one comment only when matched atomically)
+        let mut nested = vec![];
+        for s in &skippables {
+            let cs: Vec<char> = s.chars().collect();
+            if cs.len() >= 4 {
+                let open: String = cs[..2].iter().collect();
+                nested.push(format!("{}{}", open, s));
+                let close: String = cs[cs.len() - 2..].iter().collect();
+                let inner: String = cs[..cs.len() - 2].iter().collect();
+                nested.push(format!("{}{}{}", inner, s, close));
+            }
+        }
+        nested.retain(|n| n.chars().count() <= 16);
+        skippables.extend(nested);
         skippables.sort();
         skippables.dedup();
         near.sort();
